@@ -261,7 +261,7 @@ Proof.
   - intros t0 k w H _. unfold rn_despawn_missing. eapply Kinv_stable; [|exact H].
     eapply cb_stable_trans; [apply cb_stable_drop_callback|]. eapply cb_stable_trans; [apply cb_stable_despawn|]. apply cb_stable_oview. reflexivity.
   - intros t0 w H. eapply Kinv_stable; [|exact H]. apply cb_stable_despawn.
-  - intros t0 cb b w [Hs Hk] Hcb. split; [exact Hs|]. intros cb' Hcb'. unfold cb_bump in Hcb'. cbn in Hcb'.
+  - intros t0 cb b w [Hs Hk] Hcb _. split; [exact Hs|]. intros cb' Hcb'. unfold cb_bump in Hcb'. cbn in Hcb'.
     destruct (N.eq_dec t t0) as [->|Hne].
     + rewrite alookup_aupd_same, Hcb in Hcb'. inversion Hcb'; subst. cbn. apply Hk. exact Hcb.
     + rewrite alookup_aupd_other in Hcb' by exact Hne. apply Hk. exact Hcb'.
@@ -296,7 +296,7 @@ Proof.
   - intros t0 k w H _. unfold rn_despawn_missing. eapply gone_evolves; [|exact H].
     eapply evolves_trans; [apply evolves_rview; apply rview_drop_callback|]. eapply evolves_trans; [apply evolves_despawn|]. apply evolves_rview. reflexivity.
   - intros t0 w H. eapply gone_evolves; [|exact H]. apply evolves_despawn.
-  - intros t0 cb b w H _. exact H.
+  - intros t0 cb b w H _ _. exact H.
   - intros t0 tk w H. unfold once_finish. destruct (alookup t0 (cbs w)); exact H.
   - intros sd t0 r c w _ H. eapply gone_evolves; [|exact H]. apply evolves_rview. apply rview_body_begin.
   - intros w H. exact H.
